@@ -84,9 +84,10 @@ def getitem {α : Type} (c : GridClass) (n : Nat) (a : Ax) (comps : List α) : O
   (getAxisIndex c n a).bind (comps[·]?)
 
 /-- `VectorField.__getitem__`: the axis the *label* of the returned field names:
-`comp_name = self.grid.c.axes[axis]` (coordinate-system order) -/
+`comp_name = (self.grid.axes + self.grid.axes_symmetric)[axis]` (component order, the order `axis` was
+looked up in) -/
 def getitemLabel (c : GridClass) (n : Nat) (a : Ax) : Option Ax :=
-  (getAxisIndex c n a).bind ((csAxes c n)[·]?)
+  (getAxisIndex c n a).bind ((componentOrder c n)[·]?)
 
 /-- `Tensor2Field.__getitem__((a, b))` -/
 def getitem2 {α : Type} (c : GridClass) (n : Nat) (a b : Ax) (comps : List (List α)) : Option α :=
